@@ -27,9 +27,10 @@ def tests(tier):
                 out.append(Test(pfx + "." + t.name, t.strategy, t.run, n, cfgs))
     take(c01, "c01", None, SAN, 0.15)
     take(c03, "c03", None, SAN, 0.15)
-    take(c05, "c05", None, ("msan",), 0.15)        # C05 itself already runs asan + w32
+    take(c05, "c05", None, ("msan", "asan"), 0.15)  # (the 32-bit word ASan run of these generators is C05 itself)
     take(c10, "c10", None, SAN, 0.1)
     take(c11, "c11", {"overlap"}, ("msan",), 0.05)
+    take(c11, "c11a", {"overlap"}, ("asan",), 0.5)          # arenas cut to the extent of the buffers: accesses beyond the first / last buffer
     take(c13, "c13", {"share"}, SAN, 0.15)
     take(c02, "c02", None, SAN, 0.12)
     take(c06, "c06", {"mul", "swu"}, SAN, 0.3)
